@@ -1841,14 +1841,16 @@ def execute(program, ctx, mode):
                 pp = pp if pp < nP else 0
                 nm = NAMES[fk['n'] % 3]
                 n_ = 0
-                while regs[r]._generation < g_old and n_ < 12:
+                while regs[r]._generation < g_old and n_ < 40:
                     v = va if live.get((r, rq, pp, nm)) is not va else vb
                     mutate(('reg', r, real_req(rq), PP(pp), nm, v))
                     live[(r, rq, pp, nm)] = v
                     n_ += 1
-                    # (the answer seen from below has to follow every one of them: whatever recognises "a change I have
-                    # already dealt with" must not mistake the new registry for the one that used to live here)
-                    probe(k + n_)
+                    # (the answer seen from below has to follow the changes: whatever recognises "a change I have already
+                    # dealt with" must not mistake the new registry for the one that used to live here; judged after each of
+                    # the last three, where the new registry's change count meets the old one's)
+                    if regs[r]._generation >= g_old - 2:
+                        probe(k + n_)
                 if n_ and regs[r]._generation == g_old:
                     ctx.probe('replacement-registry-reached-the-change-count-of-the-old-one')
                 last_mut[0] = 'register' if n_ else 'registry-bases'
